@@ -2431,6 +2431,25 @@ class C07(Prop):
                   'matches and between the neighbouring tokens for gapped inputs (Lean); outputs of the real crate compared with reading '
                   'and model, spans checked against the input and for nesting; slices observed as pointer offsets')
 
+    bins = ['h_str_rich', 'h_slice_rich', 'h_mapped_rich', 'h_stream_rich', 'h_mstream_rich', 'h_inputs']
+
+    def custom_run(self, lines, tier, seed, jobs):
+        import vcheck
+        tot, fails = vcheck.run_cases(self.name, lines, jobs=jobs, timeout=900 if tier == 'quick' else 3600)
+        # IterInput implements only `Input` (no whole-grammar build): its `span` is driven directly on call schedules —
+        # spans of single pulls, from the first cursor, of empty matches, and of older cursor pairs asked again later
+        t = C10()
+        t.name = 'C07'
+        il = [l for l in t.cases(tier, seed) if l.startswith('IN ') and l.split(' ')[2] == 'iterspan']
+        t2, f2 = t.custom_run(il, tier, seed, jobs)
+        for k in ('pairs', 'pred_fail', 'corr_disagree', 'nontrivial'):
+            tot[k] += t2[k]
+        for k, v in t2['outcomes'].items():
+            tot['outcomes'][k] = tot['outcomes'].get(k, 0) + v
+        if t2.get('crash'):
+            tot['crash'] = t2['crash']
+        return tot, fails + f2
+
     def cases(self, tier, seed):
         rng = random.Random(seed)
         by = gen.enum_by_size(3, gen.C01_LEAVES, gen.C01_UNARIES, gen.C01_BINARIES, gen.C01_TERNARIES)
@@ -2676,13 +2695,22 @@ class C10(Prop):
                 # predicate (no model needed): at a cursor of location i the token returned is toks[i]; a stream pulls in order
                 why = []
                 body, _, tail = a.partition(' ;')
+                hist = []
+                lt = line.split(' ')
+                sched_l = [int(x) for x in lt[5:5 + int(lt[4])]]
                 for ent in body.split():
                     loc, _, t = ent.partition(':')
                     if kind == 'iterspan':
                         # IterInput::span (token i carries the span 3i+1..3i+3): the span of one pulled token is that token's,
                         # an empty match gets an empty span, the span from the first cursor starts at the first token
-                        t, s1, s0, s2 = t.split('@')
-                        (a1, b1), (a0, b0), (a2, b2) = [tuple(int(x) for x in sp.split('-')) for sp in (s1, s0, s2)]
+                        t, s1, s0, s2, s3 = t.split('@')
+                        (a1, b1), (a0, b0), (a2, b2), (a3, b3) = [tuple(int(x) for x in sp.split('-')) for sp in (s1, s0, s2, s3)]
+                        # the span of an OLDER call's (start, end) pair, asked again now
+                        hist.append((int(loc), t != '-'))
+                        oloc, opulled = hist[(sched_l[len(hist) - 1] * 7 + 3) % len(hist)]
+                        want3 = (3 * oloc + 1, 3 * oloc + 3) if opulled else None
+                        if (want3 and (a3, b3) != want3) or (not want3 and a3 != b3):
+                            why.append(f'span of the token pulled earlier at location {oloc}, asked again after other pulls, is {a3}..{b3}')
                         e_idx = int(loc) + (1 if t != '-' else 0)
                         # an empty match after e_idx tokens: an empty span just after the previous token (before the first one at 0)
                         want2 = 3 * (e_idx - 1) + 3 if e_idx > 0 else (1 if toks else 1)
@@ -2907,6 +2935,44 @@ class C16(Prop):
             lines.append(self.line(f'n{n}', gap, 'parse', tab, ('nthen', nest, ('lift', rest)), inp))
             lines.append(self.line(f'c{n}', gap, 'parse', tab, ('nthen', c, ('lift', rest)), inp))
             lines.append(self.line(f'o{n}', gap, 'parse', tab, ('nthen', ('nor', nest, c), ('lift', rest)), inp))
+        # the general form (model: HEnv / runH): `a.nested_in(b)` is `call 0` and may occur at ANY position of an ordinary grammar
+        # (repetitions, separated lists, recovery, labels, lookahead, folds), also inside `a` itself (trees parsed recursively)
+        hole = ('call', 0)
+        lvh = lv[:14] + [hole] * 6
+        n_h = 500 if tier == 'quick' else 5000
+        for n in range(n_h):
+            tab = []
+            for i, g in enumerate(G):
+                cnt = rng.choice([0, 1, 2, 2, 3])
+                pool = [A, B, A, B] + G[i + 1:] * 2          # acyclic: the recursion through `call 0` inside `a` must end
+                tab.append((g, [rng.choice(pool) for _ in range(cnt)]))
+            gap = rng.choice([0, 1, 3])
+            bsel = rng.choice(self.token_parsers(rng))
+            noslice = lambda mk: next(g for g in iter(mk, None) if 'toslice' not in gen.ops_of(g))   # Input::map has no slices
+            a = noslice(lambda: gen.random_grammar(rng, rng.randint(1, 3), lvh, gen.C01_UNARIES[:8], gen.C01_BINARIES[:5]))
+            if rng.random() < 0.4:
+                a = ('collect', 'vec', ('rep', ('or', hole, ('oneof', [A, B])), 0, None))
+            r = rng.random()
+            item = ('or', hole, ('just', [A]))
+            if r < 0.2:
+                main = ('collect', 'vec', ('rep', item, 0, None))
+            elif r < 0.3:
+                main = ('collect', 'vec', ('sep', hole, ('just', [B]), 0, None, rng.random() < 0.5, rng.random() < 0.5))
+            elif r < 0.4:
+                main = ('then', ('recvia', hole, ('to', ('vnat', 9), ('any',))), rest)
+            elif r < 0.5:
+                main = ('then', ('recskip', hole, ('any',), ('just', [B]), ('vnat', 7)), rest)
+            elif r < 0.6:
+                main = ('foldl', 'fpair', ('empty',), ('rep', item, 0, 3))
+            else:
+                main = noslice(lambda: gen.random_grammar(rng, rng.randint(2, 4), lvh, gen.C01_UNARIES, gen.C01_BINARIES))
+                if 'call' not in gen.ops_of(main):
+                    main = ('then', main, ('ornot', hole))
+            inputs = inputs_all(maxlen, [A, B, G[0], G[1]]) + ' ' + ' '.join(
+                inputs_lit([rng.choice([A, B] + G) for _ in range(rng.randint(1, 5))]) for _ in range(6))
+            for mode in ('parse', 'check'):
+                lines.append(f'NH h{n}{mode[0]} rich {gap} {mode} 200 {self.table_str(tab)} A {gen.render(a)} '
+                             f'B {gen.render(bsel)} M {gen.render(main)} I {inputs}'.replace('  ', ' '))
         return lines
 
     def corpus(self):
